@@ -1755,6 +1755,28 @@ theorem login_session_full (rs : List Bytes) (h : R C pws s t) (id pw : Bytes) (
     rw [hu]; simp
 
 
+/-! ### only the account whose stored id IS "guest" logs in without its password -/
+
+/-- in ANY represented state: an existing account whose id is not exactly `guest` (guest01, guestbook, myguest …)
+is refused with a password that does not have the effective key of its current one; nothing changes. -/
+theorem login_needs_password (rs : List Bytes) (h : R C pws s t) (id pw : Bytes) (rest : Nat) (hp : pw ∈ pws)
+    (hw : WellFormed (cstr id)) (a : Account) (ha : t.acc (foldId id) = some a) (hg : a.id ≠ STR_GUEST)
+    (hpw : ¬ pwOk a pw) :
+    (specStep rs t (.login id pw rest)).2 = ⟨.badPassword, [[]]⟩ ∧ login s id pw rest = (s, ⟨.invalidUserID, [[]]⟩) := by
+  obtain ⟨hv, hh, hf⟩ := copy_facts hw
+  obtain ⟨i, r, h1, h2, h3, h4, h5, h6, h7, h8⟩ := h.lookup_found (copyInto IDSZ id) a (by rw [hf]; exact ha) hh
+  have hval := (uidValid_succ i).2 h2
+  have hchk : C.check r.hash pw = false := by
+    cases hx : C.check r.hash pw with
+    | false => rfl
+    | true => exact absurd ((hashRel_check h8 hp).1 hx) hpw
+  have hgc : cstrcmp r.id STR_GUEST ≠ 0 := (cstrcmp_guest r.id).2 (by rw [← h6]; exact hg)
+  constructor
+  · unfold specStep; simp [hw, ha, hpw, hg]
+  · unfold login
+    simp only [hv, hh, h1, hval, recOf_succ, h3, hchk]
+    simp [hgc]
+
 /-! ### a start state, the ideal hash -/
 
 def emptyRec (C : Crypto) : Rec C := { id := List.replicate IDSZ 0, hash := C.zero, email := List.replicate EMAILSZ 0, rest := 0 }
